@@ -23,7 +23,8 @@ type Sel struct {
 	Name  string // name
 	Index int    // index
 	S     [3]*int
-	Union []Sel // name or index members
+	SE    [3]*Expr // slice bounds written as parenthesised expressions, evaluated on each incoming array
+	Union []Sel    // name, index or iexpr (parenthesised index expression) members
 	Expr  *Expr
 	Quote byte // 0: dot form, '\'' or '"': bracket form
 }
@@ -280,7 +281,20 @@ func (ev *RefEval) evalPath(start *Ref, sels []Sel) ([]*Ref, error) {
 			var next []*Ref
 			for _, n := range cur {
 				if n.kind == ajson.Array && len(n.kids) > 0 {
-					for _, k := range pySlice(len(n.kids), s.S[0], s.S[1], s.S[2]) {
+					b := s.S
+					for i := 0; i < 3; i++ {
+						if s.SE[i] != nil {
+							k, err := ev.indexValue(n, s.SE[i])
+							if err != nil {
+								return nil, err
+							}
+							b[i] = &k
+						}
+					}
+					if b[2] != nil && *b[2] == 0 {
+						return nil, refErr{"slice step 0"}
+					}
+					for _, k := range pySlice(len(n.kids), b[0], b[1], b[2]) {
 						next = append(next, n.kids[k].node)
 					}
 				}
@@ -292,6 +306,28 @@ func (ev *RefEval) evalPath(start *Ref, sels []Sel) ([]*Ref, error) {
 				text := m.Name
 				if m.Kind == "index" {
 					text = strconv.Itoa(m.Index)
+				}
+				if m.Kind == "iexpr" {
+					// an index computed on each incoming array; objects and scalars have no such member
+					for _, n := range cur {
+						if n.kind != ajson.Array {
+							continue
+						}
+						k, err := ev.indexValue(n, m.Expr)
+						if err != nil {
+							return nil, err
+						}
+						if len(n.kids) == 0 {
+							continue
+						}
+						if k < 0 {
+							k += len(n.kids)
+						}
+						if k >= 0 && k < len(n.kids) {
+							next = append(next, n.kids[k].node)
+						}
+					}
+					continue
 				}
 				for _, n := range cur {
 					if c := subscript(n, text); c != nil {
@@ -366,6 +402,24 @@ func (ev *RefEval) evalPath(start *Ref, sels []Sel) ([]*Ref, error) {
 		}
 	}
 	return cur, nil
+}
+
+// indexValue: the integer an index expression denotes at node n (an error when it is no integer number)
+func (ev *RefEval) indexValue(n *Ref, e *Expr) (int, error) {
+	if e.Kind == "path" && len(e.Path) == 2 && e.Path[0].Kind == "current" && e.Path[1].Kind == "name" && e.Path[1].Name == "length" && e.Path[1].Quote == 0 {
+		return len(n.kids), nil // the documented idiom (@.length): the size of the array
+	}
+	v, err := ev.eval(n, e)
+	if err != nil {
+		return 0, err
+	}
+	if v == nil || v.kind != ajson.Numeric || v.bad {
+		return 0, refErr{"index expression is not a number"}
+	}
+	if v.num != math.Trunc(v.num) || math.Abs(v.num) >= 1<<53 {
+		return 0, refErr{"index expression is not an integer"}
+	}
+	return int(v.num), nil
 }
 
 var errUnspecified = refErr{"unspecified"}
